@@ -26,12 +26,15 @@ THEOREMS = [
 HARNESSES = [
     dict(name="body", pkg="pkg/object/httpserver",
          files=["harness/httpserver/zz_verif_c07_net_test.go", "harness/httpserver/zz_verif_c07_test.go"],
-         run="TestVerifC07", groups=["body", "big"], timeout=900),
+         run="TestVerifC07", groups=["body", "big", "reload"], timeout=900),
 ]
-GROUPS = {"body": "check_body", "big": "check_big"}
-EXPLAIN = {"body": "explain_body", "big": "explain_big"}
+GROUPS = {"body": "check_body", "big": "check_big", "reload": "check_reload"}
+EXPLAIN = {"body": "explain_body", "big": "explain_big", "reload": "explain_reload"}
 CASES = {"quick": 500, "thorough": 6000}
-RULE = ("cases: limits at server/path/proxy/pool level drawn from {0, -1, 8..64, and the internal buffer sizes 512, 4096, 8 pages, 16 pages} x request and response bodies of "
+RULE = ("one case in 8 is a reload history: one mux, 2-4 generations of HTTPServer specs that differ only in the server / path limits (0, -1, positive; "
+        "most often only the server-level value, path left at 0), 1-3 requests per generation with bodies at limit-1 / limit / limit+1 of EVERY generation, "
+        "announced and chunked; one case in 4 has proxy `compression` (minLength 0/20/100) x client Accept-Encoding absent / gzip / list / */* / identity / br "
+        "in front of the response limit, incl. backends announcing more than they send; other cases: limits at server/path/proxy/pool level drawn from {0, -1, 8..64, and the internal buffer sizes 512, 4096, 8 pages, 16 pages} x request and response bodies of "
         "0, 1, limit/2, limit-1, limit, limit+1, limit+2, 2x, 10x, 100x the effective limit x framing (Content-Length exact / "
         "announcing more / announcing less, chunked with and without last-chunk, close-delimited responses, no body); thorough adds "
         "the 4 MiB default at 4MiB-1, 4MiB, 4MiB+1 in both directions and both framings; non-trivial = the request carries a body or the "
@@ -130,19 +133,40 @@ def _enc(kind, decl, term):
     return "EncClose"
 
 
+def _encode_body(i, o, cfg):
+    bad = bool(o.get("panic")) or not o.get("got")
+    pool = _Pool()
+    S = pool.s
+    return pool.wrap(Rec(
+        b_cfg=cfg,
+        b_req_enc=_enc(i["reqEnc"], i["reqDecl"], i["reqTerm"]), b_req=S(_b(i["reqBody"])),
+        b_status=Z(i["respStatus"]),
+        b_resp_enc=_enc(i["respEnc"], i["respDecl"], i["respTerm"]), b_resp=S(_b(i["respBody"])),
+        b_zip=B(i.get("zip")), b_minlen=Z(i.get("minLen") or 0),
+        b_ae=("(Some %s)" % S(i["ae"].encode())) if i.get("ae") else "None", b_gz=S(_b(i.get("respGz"))),
+        b_bad=B(bad), b_ostatus=Z(o["status"]), b_obody=S(_b(o.get("body"))), b_oframe=B(o["frameOK"]),
+        b_oheads=Z(o["heads"]), b_ocomplete=Z(o["complete"]), b_obbody=S(_b(o.get("bbody")))))
+
+
+def _cfg(i):
+    return Rec(c_srv=Z(i["srv"]), c_path=Z(i["path"]), c_pool=Z(i["pool"]), c_proxy=Z(i["proxy"]))
+
+
 def encode(c):
     i, o = c["in"], c["obs"]
-    cfg = Rec(c_srv=Z(i["srv"]), c_path=Z(i["path"]), c_pool=Z(i["pool"]), c_proxy=Z(i["proxy"]))
-    bad = bool(o.get("panic")) or not o.get("got")
     if c["grp"] == "body":
-        pool = _Pool()
-        S = pool.s
-        return pool.wrap(Rec(b_cfg=cfg,
-                   b_req_enc=_enc(i["reqEnc"], i["reqDecl"], i["reqTerm"]), b_req=S(_b(i["reqBody"])),
-                   b_status=Z(i["respStatus"]),
-                   b_resp_enc=_enc(i["respEnc"], i["respDecl"], i["respTerm"]), b_resp=S(_b(i["respBody"])),
-                   b_bad=B(bad), b_ostatus=Z(o["status"]), b_obody=S(_b(o.get("body"))), b_oframe=B(o["frameOK"]),
-                   b_oheads=Z(o["heads"]), b_ocomplete=Z(o["complete"]), b_obbody=S(_b(o.get("bbody")))))
+        return _encode_body(i, o, _cfg(i))
+    if c["grp"] == "reload":
+        si, so = i.get("steps") or [], o.get("steps") or []
+        first = si[0] if si else None
+        steps = []
+        for a, b in zip(si, so):
+            # pool / proxy limits and compression of the pipeline are those of step 0
+            a = dict(a, pool=first["pool"], proxy=first["proxy"], zip=first.get("zip"), minLen=first.get("minLen"))
+            steps.append(_encode_body(a, b, _cfg(a)))
+        return Rec(rl_steps=L(steps), rl_bad=B(bool(o.get("panic")) or len(si) != len(so)))
+    cfg = _cfg(i)
+    bad = bool(o.get("panic")) or not o.get("got")
     if c["grp"] == "big":
         rl = i["reqBig"] or len(_b(i["reqBody"]))
         pl = i["respBig"] or len(_b(i["respBody"]))
@@ -161,6 +185,11 @@ def distribution(cases):
     for c in cases:
         i, o = c["in"], c["obs"]
         d["groups"][c["grp"]] = d["groups"].get(c["grp"], 0) + 1
+        if c["grp"] == "reload":
+            d["reload_steps"] = d.get("reload_steps", 0) + len(i.get("steps") or [])
+            continue
+        if i.get("zip"):
+            d["compression"] = d.get("compression", 0) + 1
         d["req_enc"][i["reqEnc"]] = d["req_enc"].get(i["reqEnc"], 0) + 1
         d["resp_enc"][i["respEnc"]] = d["resp_enc"].get(i["respEnc"], 0) + 1
         s = str(o.get("status"))
@@ -173,12 +202,22 @@ def distribution(cases):
 
 
 def signature(c, r):
+    if c["grp"] == "reload":
+        return "reload/" + ",".join(str(x.get("status")) for x in (c["obs"].get("steps") or []))
     i, o = c["in"], c["obs"]
     return "%s/%s/%s/%s" % (c["grp"], i["reqEnc"], i["respEnc"], o.get("status"))
 
 
 def shrink_candidates(inp, grp):
-    if grp != "body" or os.environ.get("VERIF_NO_SHRINK"):
+    if os.environ.get("VERIF_NO_SHRINK"):
+        return
+    if grp == "reload":
+        steps = inp.get("steps") or []
+        for k in range(len(steps)):
+            if len(steps) > 1:
+                yield dict(inp, steps=steps[:k] + steps[k + 1:])
+        return
+    if grp != "body":
         return
     for k in ("reqBody", "respBody"):
         b = _b(inp.get(k))
